@@ -997,6 +997,10 @@ class TestResult(unittest.TestResult):
             self._restoreStdStreams()
         unittest.TestResult.addSkip(self, test, reason)
         self.options.output.test_skipped(test, reason)
+        if hasattr(test, 'test_case'):
+            # Only a subtest was skipped, the test itself goes on: keep
+            # buffering what it writes.
+            self._setUpStdStreams()
 
     def addSubTest(self, test, subtest, exc_info):
         if exc_info is None:
